@@ -276,6 +276,8 @@ recurseTail:
 				}
 			}
 			obj = o[len(o)-1]
+			// the last element is met like the others: a procedure is pushed
+			execProc = false
 			goto recurseTail
 		} else {
 			intp.Stack = append(intp.Stack, o)
